@@ -232,7 +232,12 @@ def serve_proxy_io(proxy_channelX: Channel) -> None:
         elif data == RIO_REMOTEADDRESS:
             control_chan.send(sub_io.remoteaddress)
         elif data == RIO_CLOSE_WRITE:
-            sub_io.close_write()
+            try:
+                sub_io.close_write()
+            except (OSError, ValueError):
+                # the sub process is gone already (what could not be
+                # written to it is still in the buffer): nothing to close
+                pass
             control_chan.send(None)
 
     control_chan.setcallback(control)
